@@ -155,6 +155,12 @@ let two64 = z_of_string "18446744073709551616"
 (* one line of a shadow book: the order as it entered the engine (fresh) and what the implementation made of it *)
 type mo_row = { mkind : string; mid : string; mord : AMM.order; mopen : string; mpaid : string; mrecv : string }
 
+module LedTbl = Hashtbl.Make (struct
+    type t = acct * BinNums.coq_Z
+    let equal (a : t) (b : t) = a = b
+    let hash (k : t) = Hashtbl.hash_param 64 128 k
+  end)
+let tdiff = ref 0. and tprops = ref 0. and tstep = ref 0.
 let run_prop (prop : string) (path : string) =
   let c04 = prop = "C04" and c05 = prop = "C05" and c06 = prop = "C06" and c07 = prop = "C07" in
   let life_on = c07 || c05 in
@@ -188,6 +194,7 @@ let run_prop (prop : string) (path : string) =
   let wfee : (string, BinNums.coq_Z) Hashtbl.t = Hashtbl.create 8 in
   let cur_parsed : op option ref = ref None and cur_res = ref "" in
   let seen_shadow_fill = ref false in
+  let reported : (string, unit) Hashtbl.t = Hashtbl.create 64 in
   let geti tbl k = try Hashtbl.find tbl k with Not_found -> z0 in
   let rate_of a = geti rates (zs a) in
   let impl_z k = try z (Hashtbl.find impl k) with Not_found -> z0 in
@@ -583,20 +590,33 @@ let run_prop (prop : string) (path : string) =
   let diff () =
     let mk = model_kv !model in
     let seen = Hashtbl.create 256 in
+    (* a difference that persists (the model does not follow a step the implementation should not have taken) is
+       reported once per case and key, so that the predicates keep judging the implementation's later states *)
+    let mismatch ~case ~step ~field ~model ~impl =
+      let key = (match S.index_opt field ':' with Some i -> S.sub field (i + 1) (S.length field - i - 1) | None -> field) ^ "|" ^ model ^ "|" ^ impl in
+      if not (Hashtbl.mem reported key) then begin Hashtbl.replace reported key (); mismatch ~case ~step ~field ~model ~impl end in
     L.iter (fun (k, v) ->
         Hashtbl.replace seen k ();
         match (try Some (Hashtbl.find impl k) with Not_found -> None) with
         | Some iv -> if iv <> v then mismatch ~case:!case ~step:!step ~field:(!cur_op ^ ":" ^ k) ~model:(S.map (fun c -> if c = ' ' then '_' else c) v) ~impl:(S.map (fun c -> if c = ' ' then '_' else c) iv)
         | None -> mismatch ~case:!case ~step:!step ~field:(!cur_op ^ ":" ^ k) ~model:"present" ~impl:"absent") mk;
+    let flat : BinNums.coq_Z LedTbl.t = LedTbl.create 512 in
     Hashtbl.iter (fun k v ->
         if is_record_key k then begin
           if not (Hashtbl.mem seen k) then mismatch ~case:!case ~step:!step ~field:(!cur_op ^ ":" ^ k) ~model:"absent" ~impl:"present"
         end else
           match S.split_on_char ':' k with
           | ["bal"; acct; d] ->
-            let mv = zs ((!model).led (acct_of_tok acct) (z d)) in
+            let ak = (acct_of_tok acct, z d) in
+            let mz = (!model).led (fst ak) (snd ak) in
+            LedTbl.replace flat ak mz;
+            let mv = zs mz in
             if mv <> v then mismatch ~case:!case ~step:!step ~field:(!cur_op ^ ":" ^ k) ~model:mv ~impl:v
-          | _ -> ()) impl
+          | _ -> ()) impl;
+    (* the model's ledger is a chain of closures, one per transfer; re-base it on a table of the watched balances
+       (the same function, extensionally) so that look-ups do not slow down with the length of the history *)
+    let old = (!model).led in
+    model := { !model with led = (fun a d -> match LedTbl.find_opt flat (a, d) with Some v -> v | None -> old a d) }
   in
 
   L.iter (fun line ->
@@ -608,7 +628,7 @@ let run_prop (prop : string) (path : string) =
         Hashtbl.reset fills_net; Hashtbl.reset nonconserving; Hashtbl.reset changed; Hashtbl.reset prev_changed;
         Buffer.clear sig_; seen_fill := false; seen_end := false; seen_pool := false; seen_farm := false; pending_mm := None;
         Hashtbl.reset mi_ids; Hashtbl.reset shadow_pairs; Hashtbl.reset shadow_fills; Hashtbl.reset shadow_kf; Hashtbl.reset ex_flags;
-        Hashtbl.reset wfee; model_flags := []; m_hdr := []; m_rows := []; m_need := 0; cur_parsed := None; cur_res := ""; seen_shadow_fill := false
+        Hashtbl.reset wfee; Hashtbl.reset reported; model_flags := []; m_hdr := []; m_rows := []; m_need := 0; cur_parsed := None; cur_res := ""; seen_shadow_fill := false
       | "op" :: "endpanic" :: _ -> pf ~pred:"endblocker_no_panic" ~kf:"none" ~detail:"EndBlocker_panicked"
       | ["wfee"; a; r] -> Hashtbl.replace wfee a (z r)
       | ["ex"; a; f] -> Hashtbl.replace ex_flags a f
@@ -693,7 +713,7 @@ let run_prop (prop : string) (path : string) =
          | OFarm _ | OUnfarm _ | ODepositAndFarm _ | OUnfarmAndWithdraw _ -> if res = "ok" then seen_farm := true
          | OBegin -> seen_end := true
          | _ -> ());
-        (match Liquidity.step !model o with
+        (match (let t0 = Sys.time () in let r = Liquidity.step !model o in tstep := !tstep +. (Sys.time () -. t0); r) with
          | Base.Ok s' ->
            if res <> "" && res <> "ok" then mismatch ~case:!case ~step:!step ~field:(kind ^ ":result") ~model:"ok" ~impl:res;
            if res = "" || res = "ok" then model := s'
@@ -704,8 +724,12 @@ let run_prop (prop : string) (path : string) =
            if res <> "panic" then mismatch ~case:!case ~step:!step ~field:(kind ^ ":result") ~model:"panic" ~impl:res);
         if res = "panic" then pf ~pred:"msg_no_panic" ~kf:"none" ~detail:(kind ^ "_panicked")
       | ["o"; "end"] when not !dead ->
+        let t0 = Sys.time () in
         diff ();
+        let t1 = Sys.time () in
         check_props ();
+        let t2 = Sys.time () in
+        tdiff := !tdiff +. (t1 -. t0); tprops := !tprops +. (t2 -. t1);
         if !mismatches > 40 then dead := true
       | "o" :: k :: vs when not !dead ->
         let v = cat vs in
@@ -741,4 +765,5 @@ let run_prop (prop : string) (path : string) =
       | ["i"; broken; name] -> bump (if broken = "0" then "modinv:ok" else "modinv:broken:" ^ name)
       | _ -> ()) lines;
   end_case ();
+  if Sys.getenv_opt "LIQRUN_PROFILE" <> None then Printf.eprintf "diff %.1f props %.1f step %.1f\n" !tdiff !tprops !tstep;
   finish ~cases:!cases ~steps:!steps ~nontrivial:!nontrivial
